@@ -391,6 +391,9 @@ func keyCheck(args common.Args, out *common.Out) error {
 		names = append(names, fmt.Sprintf("p1x%d", k))
 	}
 	for _, ci := range circuits.CorpusList {
+		if ci.Gkr {
+			continue
+		}
 		names = append(names, ci.Name)
 	}
 	common.ParallelFor(len(names), args.Int("par", 8), func(i int) {
